@@ -164,7 +164,19 @@ cfg_if! {
     }
 }
 
+#[cfg(feature = "hsivonen_encoding_rs_verif")]
+pub(crate) static VERIF_FORCE_SCALAR_UTF8: core::sync::atomic::AtomicBool =
+    core::sync::atomic::AtomicBool::new(false);
+
 pub fn utf8_valid_up_to(src: &[u8]) -> usize {
+    #[cfg(feature = "hsivonen_encoding_rs_verif")]
+    let fast_utf8_valid_up_to = |s: &[u8]| {
+        if VERIF_FORCE_SCALAR_UTF8.load(core::sync::atomic::Ordering::Relaxed) {
+            None
+        } else {
+            fast_utf8_valid_up_to(s)
+        }
+    };
     if let Some(up_to) = fast_utf8_valid_up_to(src) {
         return up_to;
     }
@@ -547,6 +559,7 @@ pub fn convert_utf8_to_utf16_up_to_invalid(src: &[u8], dst: &mut [u16]) -> (usiz
     (read, written)
 }
 
+#[cfg_attr(feature = "hsivonen_encoding_rs_verif", derive(Debug, Clone, PartialEq, Eq, Hash))]
 pub struct Utf8Decoder {
     code_point: u32,
     bytes_seen: usize,   // 1, 2 or 3: counts continuations only
@@ -926,6 +939,7 @@ pub fn convert_utf16_to_utf8_partial_tail(src: &[u16], dst: &mut [u8]) -> (usize
     (read, written)
 }
 
+#[cfg_attr(feature = "hsivonen_encoding_rs_verif", derive(Debug, Clone, PartialEq, Eq, Hash))]
 pub struct Utf8Encoder;
 
 impl Utf8Encoder {
